@@ -697,3 +697,6 @@ func failureStops(o *an.Obl, f *an.Func, what string, calls []an.Site, mode an.O
 		}
 	}
 }
+
+// reSub replaces every match of re in s by repl.
+func reSub(re, repl, s string) string { return regexp.MustCompile(re).ReplaceAllString(s, repl) }
